@@ -13,18 +13,18 @@ LEVEL = 'exploration'
 RULE = (
     "Case = 1..4 pending requests (api in {wait_for_server_message, wait_for_peer_message, create_*_response_future "
     "+ timeout as SoulSeekClient.execute does, register_response_future}; message class; peer; field matchers incl. "
-    "callable matchers; timeout; start tick; optional cancellation tick) and <=8 incoming messages over the server "
+    "callable matchers; timeout 0 | 3..40 ticks, 0 being the used-up remaining budget max(0.0, deadline - now) that must raise TimeoutError in the next loop iteration; start tick; optional cancellation tick) and <=8 incoming messages over the server "
     "connection and two peer connections of a real Network on the in-memory TCP layer (matching one, several or no "
     "request; wrong peer; right class wrong field; optionally glued to the previous message in one TCP segment so "
-    "both are processed back-to-back; optionally the expected peer's message connection closes by EOF / reset and the peer comes back on a fresh connection 0..4 ticks later, replies then travel over the new connection; optionally application listeners of MessageReceivedEvent that raise (function / coroutine, at once or after zero-length waits); optionally 1..2 application listeners of MessageReceivedEvent that really SUSPEND: the k-th message of a connection keeps the listener busy for plan[k mod len(plan)] = nothing | 1..5 loop iterations | 0.2..3.0 ms of virtual time (no reconnections in such cases); optionally create_peer_connection('a'|'b') calls that need the same GetPeerAddress reply and are cancelled a few ticks later), all on a 1 ms tick grid with 1 ms latency. Oracle (reference model, first "
-    "match, derived from DataConnection._message_reader_loop / Network.on_message_received / EventBus.emit): the messages of a connection are handled strictly one after the other in arrival order; the handling of a message starts at max(its arrival, end of the handling of the previous message of that connection) and ends after the sum of the listener suspensions, and the pending requests see the message at the END of its handling (exact integer microseconds; without suspending listeners that is the arrival). A request completes with the first message whose handling ends strictly after its registration and strictly "
+    "both are processed back-to-back; optionally the expected peer's message connection closes by EOF / reset and the peer comes back on a fresh connection 0..4 ticks later, replies then travel over the new connection; the close happens BEFORE what is written in its tick (that then travels over the new connection) or AFTER it (message + FIN in the same instant on the existing connection: what was written before the FIN is delivered and handled, TCP is ordered); the server may close its connection in the same two ways (it does not come back: what it would have sent later is not part of the history); optionally a peer delivers a message over a connection of its own that it opens for it (PeerInit + message(s) in one segment or in two writes of the same instant, optionally + FIN in the same instant: a reply from the expected peer whatever connection carries it); optionally application listeners of MessageReceivedEvent that raise (function / coroutine, at once or after zero-length waits); optionally 1..2 application listeners of MessageReceivedEvent that really SUSPEND: the k-th message of a connection keeps the listener busy for plan[k mod len(plan)] = nothing | 1..5 loop iterations | 0.2..3.0 ms of virtual time (connections only close by EOF in such cases, so the FIN can arrive while the reader is still busy and further messages wait in the read buffer); optionally create_peer_connection('a'|'b') calls that need the same GetPeerAddress reply and are cancelled a few ticks later), all on a 1 ms tick grid with 1 ms latency. Oracle (reference model, first "
+    "match, derived from DataConnection._message_reader_loop / Network.on_message_received / EventBus.emit): the messages of a connection OBJECT are handled strictly one after the other in arrival order (different connection objects of one peer are handled independently; two matching messages handled in the same instant on different objects are a tie); the handling of a message starts at max(its arrival, end of the handling of the previous message of that connection) and ends after the sum of the listener suspensions, and the pending requests see the message at the END of its handling (exact integer microseconds; without suspending listeners that is the arrival). A request completes with the first message whose handling ends strictly after its registration and strictly "
     "before its deadline/cancellation that has the expected class, comes from the expected server/peer connection "
     "and satisfies all field matchers (the completing message is identified as an OBJECT: the k-th object handed to on_message_received for a connection is the k-th message sent on it, so a later equal-valued message is told apart); the order in which the handling of the messages of a connection ends, and the order in which a recording listener registered behind the others sees them, equals the arrival order; otherwise TimeoutError (cancelled caller: CancelledError) and never another "
-    "exception; on_message_received never raises; afterwards the pending list is empty, the loop recorded no "
+    "exception; every request is over 200 ms after the start of the history (C12/request-never-finished otherwise: a hung caller); on_message_received never raises; afterwards the pending list is empty, the loop recorded no "
     "error, and a probe request registered after the history is still completed by its reply. Events that fall on "
     "the same instant as a registration/deadline/cancellation are ties: both orders are accepted. Non-trivial = two "
     "requests answered by one message, or two matching messages glued in one segment, or an arrival within one tick "
-    "of a deadline/cancellation, or a request and a create_peer_connection() call that need the same address reply, or a matching message that waited in the read buffer while a listener was busy with the previous one, or a request registered while the message that answers it was being handled; distinct = distinct case document. "
+    "of a deadline/cancellation, or a request and a create_peer_connection() call that need the same address reply, or a matching message that waited in the read buffer while a listener was busy with the previous one, or a request registered while the message that answers it was being handled, or an answer that is the last thing written before the FIN of its connection; distinct = distinct case document. "
     "Command tier (checks/c12_cmd.py): SoulSeekClient.execute(command, response=True) for 11 commands against the simulated server / scripted peers with <=3 scripted replies (the correct one and near misses: other user / room / text / ticket / directory / peer), optional write back pressure on the server connection, and optionally the run-time settings change settings.credentials.username = <other name> (incl. the user name of the near-miss echo) right before execute() while the session of the logged-in user stays active: the server keeps echoing RoomChatMessage / RoomTickerAdded with the SESSION user; the request completes with the first correct reply inside the timeout and with nothing else."
 )
 ASSUMPTIONS = [
@@ -35,8 +35,13 @@ ASSUMPTIONS = [
     "and the reading of the following messages of that connection (on_message_received awaits EventBus.emit before it "
     "completes futures; the reader awaits on_message_received): the model follows the code here, the property only "
     "fixes WHICH message completes a request; suspensions of 1..5 loop iterations take no virtual time",
-    "suspending listeners are not combined with connection close/reopen events (a reset discards messages that are "
-    "still waiting in the read buffer; handling would overlap between the old and the new connection object)",
+    "with suspending listeners connections close by EOF only (a reset discards the messages that still wait in the read "
+    "buffer); after an EOF everything written before it is still read and handled (confirmed on the reference tree)",
+    "a message written in the same instant as the FIN of its connection, before it, is delivered: the in-memory TCP "
+    "hands data and EOF to the reader in consecutive loop iterations of one virtual instant",
+    "a wait with timeout 0 is legal (remaining-budget idiom) and raises TimeoutError; a message handled in the very "
+    "instant of the registration is a tie",
+    "the server closing its connection by EOF is not followed by a reconnect (Network stops the watchdog on EOF)",
     "the echo of a room message / ticker carries the name of the logged-in (session) user; credentials stored in the "
     "settings afterwards are for the next login and do not change what answers a pending command",
 ]
@@ -102,7 +107,8 @@ def case_strategy(draw):
         conn = draw(st.sampled_from(['server', 'server', 'peer0', 'peer1']))
         name = draw(st.sampled_from(SERVER_CLASSES if conn == 'server' else PEER_CLASSES))
         # occasionally wait for a class on the wrong kind of connection (never matches)
-        timeout = draw(st.sampled_from([3, 5, 8, 12, 40]))
+        # 0 = the 'remaining budget is used up' value (max(0.0, deadline - now)): times out in the next loop iteration
+        timeout = draw(st.sampled_from([0, 3, 3, 5, 5, 8, 8, 12, 12, 40, 40]))
         at = draw(st.integers(0, 12))
         cancel = draw(st.none() | st.integers(1, 14))
         reqs.append({'api': draw(st.sampled_from(APIS)), 'conn': conn, 'cls': name,
@@ -128,14 +134,29 @@ def case_strategy(draw):
             conn = draw(st.sampled_from(['server', 'peer0', 'peer1']))
             name = draw(st.sampled_from(SERVER_CLASSES if conn == 'server' else PEER_CLASSES))
             values = {fname: draw(st.sampled_from(dom)) for fname, dom in FIELDS[name].items()}
-        inc.append({'conn': conn, 'cls': name, 'values': values, 'at': draw(st.integers(0, 20)),
-                    'glue': draw(st.booleans())})
+        m = {'conn': conn, 'cls': name, 'values': values, 'at': draw(st.integers(0, 20)),
+             'glue': draw(st.booleans())}
+        if conn != 'server' and draw(st.integers(0, 7)) == 0:
+            # the peer opens a NEW connection to deliver this message: PeerInit + message(s) in one segment ('fresh')
+            # or in two writes of the same instant ('fresh2'), and (fin) closes it in the same instant
+            m['via'] = draw(st.sampled_from(['fresh', 'fresh', 'fresh2']))
+            m['fin'] = draw(st.integers(0, 3)) > 0
+        inc.append(m)
     # the expected peer's message connection closes and the peer comes back on a fresh one (0..4 ticks later):
     # a reply over the new connection is still a reply from the expected peer
-    reconn = draw(st.lists(st.fixed_dictionaries({'conn': st.sampled_from(['peer0', 'peer1']),
-                                                  'at': st.integers(0, 20), 'gap': st.integers(0, 4),
-                                                  'how': st.sampled_from(['eof', 'reset'])}),
-                           max_size=2)) if draw(st.integers(0, 2)) == 0 else []
+    # order 'after': the messages of that tick are written first and the connection is closed (FIN) in the same
+    # instant: what was sent before the close is still delivered and answers what it answers.  The server may close
+    # as well (it does not come back: later server messages of the case are never sent)
+    reconn = []
+    if draw(st.integers(0, 2)) == 0:
+        for _ in range(draw(st.integers(0, 2))):
+            conn = draw(st.sampled_from(['peer0', 'peer0', 'peer1', 'peer1', 'server']))
+            ticks = sorted({m['at'] for m in inc if m['conn'] == conn and 'via' not in m})
+            at = draw(st.sampled_from(ticks)) if ticks and draw(st.integers(0, 2)) > 0 else draw(st.integers(0, 20))
+            order_ = draw(st.sampled_from(['before', 'after', 'after']))
+            reconn.append({'conn': conn, 'at': at, 'gap': draw(st.integers(0, 4)),
+                           'how': 'eof' if order_ == 'after' else draw(st.sampled_from(['eof', 'reset'])),
+                           'order': order_})
     # application listeners of MessageReceivedEvent that raise (plain function / coroutine, raising at once or after
     # 1..3 zero-length waits): a failing listener must not keep a reply from completing the requests it answers
     lmode = draw(st.integers(0, 6))
@@ -153,7 +174,8 @@ def case_strategy(draw):
         if draw(st.integers(0, 3)) == 0:
             listeners.insert(draw(st.integers(0, len(listeners))),
                              draw(st.sampled_from(['sync-raise', 'async-raise', 'async-raise-late'])))
-        reconn = []
+        for e in reconn:
+            e['how'] = 'eof'    # a reset would discard the messages that still wait in the read buffer
     # other library activity that needs the same server reply: create_peer_connection(user) asks for the address of
     # 'a'/'b' (GetPeerAddress) and is cancelled a few ticks later; requests of the case waiting for the same reply
     # are not affected by that
@@ -185,7 +207,7 @@ def _sanitise(case):
                     fields[k] = v
             cancel = r.get('cancel')
             reqs.append({'api': r['api'] if r.get('api') in APIS else 'wait', 'conn': conn, 'cls': name,
-                         'fields': fields, 'timeout': max(1, min(60, int(r.get('timeout', 5)))),
+                         'fields': fields, 'timeout': max(0, min(60, int(r.get('timeout', 5)))),
                          'at': max(0, min(30, int(r.get('at', 0)))),
                          'cancel': None if cancel is None else max(1, min(40, int(cancel)))})
         except Exception:
@@ -201,7 +223,9 @@ def _sanitise(case):
                 v = (m.get('values') or {}).get(k, dom[0])
                 values[k] = v if (v in dom and type(v) is type(dom[0])) else dom[0]
             inc.append({'conn': conn, 'cls': name, 'values': values, 'at': max(0, min(40, int(m.get('at', 0)))),
-                        'glue': bool(m.get('glue'))})
+                        'glue': bool(m.get('glue')),
+                        'via': m.get('via') if (conn != 'server' and m.get('via') in ('fresh', 'fresh2')) else 'main',
+                        'fin': bool(m.get('fin'))})
         except Exception:
             continue
     listeners = []
@@ -219,26 +243,39 @@ def _sanitise(case):
                 listeners.append({'suspend': plan})
     reconn = []
     last_open = {}
-    # the serial-handling model is per connection OBJECT: no reconnections together with suspending listeners
-    # (a reset would also discard the messages still waiting in the read buffer)
+    # with suspending listeners connections only close by EOF: a reset would discard the messages that still wait in
+    # the read buffer
     suspending = any(isinstance(x, dict) for x in listeners)
-    for e in sorted((e for e in ([] if suspending else (case.get('reconn') or [])[:3]) if isinstance(e, dict)),
+    for e in sorted((e for e in (case.get('reconn') or [])[:3] if isinstance(e, dict)),
                     key=lambda e: (int(e.get('at', 0)) if isinstance(e.get('at', 0), int) else 0)):
         try:
-            conn = e['conn'] if e.get('conn') in ('peer0', 'peer1') else 'peer0'
+            conn = e['conn'] if e.get('conn') in ('peer0', 'peer1', 'server') else 'peer0'
+            if conn == 'server' and 'server' in last_open:
+                continue            # the server does not come back
             at = max(0, min(40, int(e.get('at', 0))))
-            gap = max(0, min(6, int(e.get('gap', 0))))
+            gap = 0 if conn == 'server' else max(0, min(6, int(e.get('gap', 0))))
             if conn in last_open and at <= last_open[conn]:
                 at = last_open[conn] + 1
             last_open[conn] = at + gap
-            reconn.append({'conn': conn, 'at': at, 'gap': gap, 'how': 'reset' if e.get('how') == 'reset' else 'eof'})
+            order_ = 'after' if e.get('order') == 'after' else 'before'
+            how = 'reset' if (e.get('how') == 'reset' and order_ == 'before' and not suspending and
+                              conn != 'server') else 'eof'
+            reconn.append({'conn': conn, 'at': at, 'gap': gap, 'how': how, 'order': order_})
         except Exception:
             continue
     # nothing can be sent to the client while the peer has no connection: such messages leave when it is back
+    # (order 'after': what is written in the tick of the close still leaves over the old connection, before the FIN).
+    # Messages over a connection of their own ('fresh') do not depend on the peer's main connection.
     for m in inc:
         for e in reconn:
-            if m['conn'] == e['conn'] and e['at'] <= m['at'] < e['at'] + e['gap']:
+            if m['conn'] == e['conn'] and m['conn'] != 'server' and m['via'] == 'main' and \
+                    e['at'] + (1 if e['order'] == 'after' else 0) <= m['at'] < e['at'] + e['gap']:
                 m['at'] = e['at'] + e['gap']
+    # what the server would have sent after it closed the connection is never sent
+    for e in reconn:
+        if e['conn'] == 'server':
+            inc = [m for m in inc if not (m['conn'] == 'server' and
+                                          (m['at'] > e['at'] or (m['at'] == e['at'] and e['order'] == 'before')))]
     connects = []
     for e in (case.get('connects') or [])[:3]:
         try:
@@ -279,17 +316,38 @@ def run_case(case) -> CaseResult:
 
     # delivery schedule: group glued messages (same connection, consecutive) into one segment
     inc_sorted = sorted(enumerate(inc), key=lambda im: (im[1]['at'], im[0]))
-    segments = []   # (tick, conn, [msg indices])
+    segments = []   # {tick, conn, idxs, via, fin, proc}
     for i, m in inc_sorted:
-        if m['glue'] and segments and segments[-1][1] == m['conn']:
-            segments[-1][2].append(i)
+        if m['glue'] and segments and segments[-1]['conn'] == m['conn']:
+            segments[-1]['idxs'].append(i)
         else:
-            segments.append((m['at'], m['conn'], [i]))
+            segments.append({'tick': m['at'], 'conn': m['conn'], 'idxs': [i], 'via': m['via'], 'fin': m['fin']})
+
+    def _generation(conn, tick):
+        # number of re-openings of the peer's main connection that precede the data written at ``tick``: a connection
+        # that is closed AFTER the data of its tick and re-opened in the same tick (gap 0) carries that data itself
+        n = 0
+        for e in reconn:
+            if e['conn'] != conn:
+                continue
+            if e['order'] == 'after' and e['gap'] == 0:
+                n += 1 if e['at'] < tick else 0
+            else:
+                n += 1 if e['at'] + e['gap'] <= tick else 0
+        return n
     arrival = {}    # msg index -> arrival tick (send tick + 1), order index
+    proc_of = {}    # msg index -> connection OBJECT that carries it (label)
     order = []
-    for tick, conn, idxs in segments:
-        for i in idxs:
-            arrival[i] = tick + 1
+    for sg in segments:
+        if sg['conn'] == 'server':
+            sg['proc'] = 'server'
+        elif sg['via'] == 'main':
+            sg['proc'] = '%s#m%d' % (sg['conn'], _generation(sg['conn'], sg['tick']))
+        else:
+            sg['proc'] = '%s#f%d' % (sg['conn'], sg['idxs'][0])
+        for i in sg['idxs']:
+            arrival[i] = sg['tick'] + 1
+            proc_of[i] = sg['proc']
             order.append(i)
     # Handling model (network.py / connection.py): ONE reader per connection reads a message, awaits
     # Network.on_message_received (internal handler, then EventBus.emit which awaits the listeners one after the other,
@@ -298,9 +356,9 @@ def run_case(case) -> CaseResult:
     # after the sum of the listener suspensions; requests see the message at the END of its handling.  Times in
     # microseconds (exact integers); suspensions of 1..5 loop iterations take no virtual time.
     plans = [x['suspend'] for x in listeners if isinstance(x, dict)]
-    seq = {}        # connection -> msg indices in send order
+    seq = {}        # connection object -> msg indices in send order
     for i in order:
-        seq.setdefault(inc[i]['conn'], []).append(i)
+        seq.setdefault(proc_of[i], []).append(i)
     handled_at = {}     # msg index -> microsecond at which its handling ends (requests are completed then)
     waited = set()      # messages that had to wait in the read buffer for the handling of the previous one
     for conn in sorted(seq):
@@ -318,6 +376,7 @@ def run_case(case) -> CaseResult:
     cb_errors = []
     entered, finished, seen = {}, [], []
     rec = {}
+    hung = []
 
     async def main(world: simworld.World):
         loop = world.loop
@@ -325,8 +384,12 @@ def run_case(case) -> CaseResult:
         network = Network(settings, EventBus())
         orig = network.on_message_received
 
+        portmap = {}    # (peer name, source port of the scripted link) -> label of the connection object
+
         def ckey(connection):
-            return 'server' if connection is network.server_connection else getattr(connection, 'username', None)
+            if connection is network.server_connection:
+                return 'server'
+            return portmap.get((getattr(connection, 'username', None), getattr(connection, 'port', None)))
 
         async def guarded(message, connection):
             key = ckey(connection)
@@ -391,6 +454,8 @@ def run_case(case) -> CaseResult:
             p = world.add_peer('peer%d' % k)
             link = p.connect('P', port=settings.network.listening.port)
             peers.append(link)
+            portmap[(p.name, link.ep.link.sides[1].get_extra_info('peername')[1])] = '%s#m0' % p.name
+        opened = {'peer0': 0, 'peer1': 0}
         await asyncio.sleep(0.01)
         t0 = loop.time()
         eps = {'server': world.server.sessions[-1], 'peer0': peers[0].ep, 'peer1': peers[1].ep}
@@ -473,38 +538,78 @@ def run_case(case) -> CaseResult:
             cancels.append(ct)
             cancels.append(asyncio.ensure_future(conn_canceller(ct, e)))
 
-        # one timer per tick (equal-deadline timers are not FIFO in asyncio): sends stay in list order
+        # one timer per tick (equal-deadline timers are not FIFO in asyncio): sends stay in list order.  Within a tick:
+        # closes that come BEFORE the data, re-openings, data, closes AFTER the data (data + FIN in the same instant),
+        # re-openings that follow such a close at once
         by_tick = {}
-        for e in reconn:       # connection events come first within their tick
-            by_tick.setdefault(e['at'], []).append((e['conn'], ('close', e['how'])))
-            by_tick.setdefault(e['at'] + e['gap'], []).append((e['conn'], ('open',)))
-        for tick, conn, idxs in segments:
-            data = b''.join(_build(inc[i]['cls'], inc[i]['values']).serialize() for i in idxs)
-            by_tick.setdefault(tick, []).append((conn, data))
+        for e in reconn:
+            after = e['order'] == 'after'
+            by_tick.setdefault(e['at'], []).append((3 if after else 0, e['conn'], ('close', e['how'])))
+            if e['conn'] != 'server':
+                by_tick.setdefault(e['at'] + e['gap'], []).append(
+                    (4 if (after and e['gap'] == 0) else 1, e['conn'], ('open',)))
+        for sg in segments:
+            data = b''.join(_build(inc[i]['cls'], inc[i]['values']).serialize() for i in sg['idxs'])
+            if sg['via'] == 'main':
+                by_tick.setdefault(sg['tick'], []).append((2, sg['conn'], data))
+            else:
+                by_tick.setdefault(sg['tick'], []).append((2, sg['conn'], ('fresh', sg['via'], sg['fin'], sg['proc'],
+                                                                          data)))
+
+        def new_link(conn, label, init):
+            lk = world.peers[conn].connect('P', port=settings.network.listening.port, init=init)
+            portmap[(conn, lk.ep.link.sides[1].get_extra_info('peername')[1])] = label
+            return lk
 
         def send_all(items):
-            for conn, data in items:
+            for _, conn, data in items:
                 if isinstance(data, tuple):
                     if data[0] == 'close':
                         (eps[conn].reset if data[1] == 'reset' else eps[conn].close)()
-                    else:
+                    elif data[0] == 'open':
                         k = int(conn[-1])
-                        peers[k] = world.peers[conn].connect('P', port=settings.network.listening.port)
+                        opened[conn] += 1
+                        peers[k] = new_link(conn, '%s#m%d' % (conn, opened[conn]), 'peer_init')
                         eps[conn] = peers[k].ep
+                    else:
+                        # the peer opens a connection of its own for this segment: PeerInit + messages (+ FIN) at once
+                        _, via, fin, label, payload = data
+                        lk = new_link(conn, label, None)
+                        init = M.PeerInit.Request(conn, 'P', 0).serialize()
+                        if via == 'fresh':
+                            lk.ep.send(init + payload)
+                        else:
+                            lk.ep.send(init)
+                            lk.ep.send(payload)
+                        if fin:
+                            lk.ep.close()
                 else:
                     eps[conn].send(data)
         for tick, items in sorted(by_tick.items()):
-            loop.call_at(t0 + tick * TICK, send_all, items)
+            loop.call_at(t0 + tick * TICK, send_all, sorted(items, key=lambda it: it[0]))
 
         await asyncio.sleep(0.2)
+        # every request of the case is over by now (start <= 30 ticks, timeout <= 60 ticks): one that is not has hung
+        for i, t in enumerate(tasks):
+            if not t.done():
+                hung.append(i)
+                t.cancel()
         await asyncio.gather(*tasks, *cancels, return_exceptions=True)
+        for i in hung:
+            outcomes.pop(i, None)
         residue = len(network._expected_response_futures)
         rec['entered'] = {k: list(v) for k, v in entered.items()}
         rec['finished'] = list(finished)
         rec['seen'] = list(seen)
         # probe: the machinery still works afterwards
-        probe = network.create_server_response_future(M.GetUserStatus.Response, fields={'username': 'probe'})
-        world.server.send(M.GetUserStatus.Response('probe', 1, False))
+        if any(e['conn'] == 'server' for e in reconn):
+            # the server closed the connection during the history: probe over the connection of peer0
+            probe = network.create_peer_response_future('peer0', M.PeerUploadFailed.Request,
+                                                        fields={'filename': 'probe'})
+            peers[0].send_msg(M.PeerUploadFailed.Request('probe'))
+        else:
+            probe = network.create_server_response_future(M.GetUserStatus.Response, fields={'username': 'probe'})
+            world.server.send(M.GetUserStatus.Response('probe', 1, False))
         probe_ok = True
         try:
             async with atimeout(0.05):
@@ -564,6 +669,14 @@ def run_case(case) -> CaseResult:
             if not _matches(r, m):
                 continue
             t = handled_at[mi]
+            if strict is not None:
+                if t == handled_at[strict]:
+                    if proc_of[mi] != proc_of[strict]:
+                        # handled in the same instant on ANOTHER connection of the same peer: no order between them
+                        ties = True
+                        acceptable.add(mi)
+                    continue
+                break
             if t == reg or t == end:
                 ties = True
                 acceptable.add(mi)      # may or may not be seen
@@ -574,10 +687,11 @@ def run_case(case) -> CaseResult:
                 strict = mi
                 if arrival[mi] * 1000 <= reg:
                     late_reg = True     # registered while the message that answers it was being handled
-                break
         got = outcomes.get(i)
         if got is None:
-            res.violate('C12/request-never-finished', f'request {i} {r}')
+            res.violate('C12/request-never-finished' + (f':timeout=0:{r["api"]}' if r['timeout'] == 0 else ''),
+                        f'request {i} {r} was still pending 200 ms after the start of the history'
+                        + (' (hung)' if i in hung else ''))
             continue
         if got[0] == 'error':
             res.violate(f'C12/wrong-exception:{got[1]}:{r["api"]}', f'request {i} {r} raised {got[1]} '
@@ -651,10 +765,11 @@ def run_case(case) -> CaseResult:
     for e in loop_errors:
         res.violate(f'C12/loop-error:{e["exc_type"]}', str(e)[:300])
         break
-    glued_match = any(len(idxs) > 1 and sum(1 for i in idxs if any(_matches(r, inc[i]) for r in reqs)) > 1
-                      for _, _, idxs in segments)
+    glued_match = any(len(sg['idxs']) > 1 and
+                      sum(1 for i in sg['idxs'] if any(_matches(r, inc[i]) for r in reqs)) > 1 for sg in segments)
     shared_reply = bool(connects) and any(r['cls'] == 'GetPeerAddress' and r['fields'].get('username') in
                                           [e['user'] for e in connects] for r in reqs)
+    close_glued = False
     # a message that answers a request had to wait in the read buffer while a listener was busy with the previous one
     buffered_match = any(i in waited and any(_matches(r, inc[i]) for r in reqs) for i in order)
     res.nontrivial = bool(multi or glued_match or near or ties or shared_reply or buffered_match or late_reg)
@@ -676,6 +791,25 @@ def run_case(case) -> CaseResult:
         res.label('outcome:' + o[0])
     for x in listeners:
         res.label('listener:' + (x if isinstance(x, str) else 'suspend'))
+    if any(r['timeout'] == 0 for r in reqs):
+        res.label('timeout-0')
+    answering = lambda idxs: any(_matches(r, inc[i]) for r in reqs for i in idxs)    # noqa: E731
+    for sg in segments:
+        if sg['via'] != 'main':
+            res.label('reply-over-own-connection:%s%s' % (sg['via'], '+fin' if sg['fin'] else ''))
+            if sg['fin'] and answering(sg['idxs']):
+                close_glued = True
+    for e in reconn:
+        res.label('close:%s:%s:%s' % ('server' if e['conn'] == 'server' else 'peer', e['order'], e['how']))
+        if e['order'] == 'after':
+            same = [sg for sg in segments if sg['conn'] == e['conn'] and sg['via'] == 'main' and sg['tick'] == e['at']]
+            if same:
+                res.label('message-and-fin-in-the-same-instant')
+                if any(answering(sg['idxs']) for sg in same):
+                    close_glued = True
+    if close_glued:
+        res.label('answer-glued-to-the-close-of-its-connection')
+        res.nontrivial = True
     if mapped:
         res.label('messages-identified-by-object')
     if connects:
@@ -724,9 +858,58 @@ def _suspending_cases():
                                    'incoming': inc, 'reconn': [], 'listeners': [{'suspend': plan}], 'connects': []}
 
 
+def _timeout0_cases():
+    """timeout 0 (the used-up remaining budget): TimeoutError in the next loop iteration, whatever arrives later."""
+    for api in APIS:
+        for conn, name, vals in (('server', 'GetUserStatus', {'username': 'a', 'status': 1, 'privileged': False}),
+                                 ('peer1', 'PeerUploadFailed', {'filename': 'g'})):
+            key = 'username' if conn == 'server' else 'filename'
+            for msg_at in (None, 2, 3, 9):      # none / handled in the tick of the registration / later
+                for cancel in (None, 1, 5):
+                    inc = [] if msg_at is None else [{'conn': conn, 'cls': name, 'values': vals, 'at': msg_at,
+                                                      'glue': False}]
+                    yield {'requests': [{'api': api, 'conn': conn, 'cls': name, 'fields': {key: vals[key]},
+                                         'timeout': 0, 'at': 3, 'cancel': cancel}],
+                           'incoming': inc, 'reconn': [], 'listeners': [], 'connects': []}
+
+
+def _close_glued_cases():
+    """The answer is the last thing sent before the connection closes: written together with the FIN on the peer's /
+    the server's existing connection (idle reader, or reader still busy with the previous message), or over a
+    connection of its own (PeerInit + answer + FIN in one go)."""
+    peer = ('peer0', 'PeerPlaceInQueueReply', [{'filename': 'f', 'place': p} for p in (1, 0)], 'filename')
+    server = ('server', 'GetUserStatus', [{'username': 'a', 'status': s, 'privileged': False} for s in (2, 1)],
+              'username')
+    for api in APIS:
+        for conn, name, vals, key in (peer, server):
+            req = {'api': api, 'conn': conn, 'cls': name, 'fields': {key: vals[0][key], **(
+                {'place': 0} if conn != 'server' else {'status': 1})}, 'timeout': 30, 'at': 0, 'cancel': None}
+            # (a) answer + FIN in the same instant, reader idle / busy with the previous message
+            for listeners in ([], [{'suspend': [1500, 0]}], [{'suspend': [3, 0]}], ['async-ok']):
+                for glue in (False, True):
+                    for gap in (0, 2):
+                        inc = [{'conn': conn, 'cls': name, 'values': vals[0], 'at': 4 if glue else 3, 'glue': False},
+                               {'conn': conn, 'cls': name, 'values': vals[1], 'at': 4, 'glue': glue}]
+                        yield {'requests': [req], 'incoming': inc, 'listeners': listeners, 'connects': [],
+                               'reconn': [{'conn': conn, 'at': 4, 'gap': gap, 'how': 'eof', 'order': 'after'}]}
+            if conn == 'server':
+                continue
+            # (b) the peer delivers the answer over a connection of its own
+            for via in ('fresh', 'fresh2'):
+                for fin in (True, False):
+                    for listeners in ([], [{'suspend': [700]}]):
+                        for n in (1, 2):
+                            inc = [{'conn': conn, 'cls': name, 'values': vals[k] if n == 2 else vals[1], 'at': 4,
+                                    'glue': k > 0, 'via': via, 'fin': fin} for k in range(n)]
+                            yield {'requests': [req], 'incoming': inc, 'listeners': listeners, 'connects': [],
+                                   'reconn': []}
+
+
 def run_shard(ctx):
     ctx.enumerate(_shared_reply_cases())
     ctx.enumerate(_suspending_cases())
+    ctx.enumerate(_timeout0_cases())
+    ctx.enumerate(_close_glued_cases())
     n = 500 if ctx.tier == 'quick' else 20000
     ctx.explore(case_strategy(), n)
     from checks import c12_cmd
@@ -735,7 +918,8 @@ def run_shard(ctx):
 
 MANIFEST_ENTRY = {
     'technique': 'property-based testing (Hypothesis): generated request multisets and incoming message schedules '
-                 '(glued segments, raising and suspending application listeners, reconnecting peers, concurrent '
+                 '(glued segments, raising and suspending application listeners, reconnecting peers, message + FIN in one '
+                 'instant, replies over a connection of their own, timeout 0, concurrent '
                  'address lookups) on a virtual-time loop with in-memory TCP, first-match reference model as oracle; '
                  'second tier: generated execute(command, response=True) scripts incl. a run-time credentials change',
     'level_text': 'Generated-schedule exploration of the real Network request/response matching through real '
@@ -744,6 +928,6 @@ MANIFEST_ENTRY = {
                   'its handling ends; completing message identified by object); per-connection handling order, '
                   'residue, reader liveness and loop errors are checked after each history.',
     'level_note': 'Trusted base: virtual loop and in-memory TCP (ordered, lossless, latency 1 ms), the reference model '
-                  'in checks/c12.py. Ties at the same instant accept both orders. Suspending listeners are not '
-                  'combined with reconnections.',
+                  'in checks/c12.py. Ties at the same instant accept both orders. With suspending listeners '
+                  'connections close by EOF only.',
 }
